@@ -78,8 +78,10 @@ func (u *universe) trc(kind string, k int) cppki.SignedTRC {
 		if k == 2 {
 			p.Votes, signers = []int{}, []int{1, 2, 3, 4}
 		}
-	case "otherisd":
+	case "otherisd", "o":
 		p.ISD, p.Certs, signers = 2, []int{11, 12, 13, 14, 15}, []int{13, 14}
+	case "of":
+		p.ISD, p.Certs, signers, p.NB = 2, []int{11, 12, 13, 14, 15}, []int{13, 14}, 2
 	default:
 		vt.Fatal("unknown TRC kind %q", kind)
 	}
@@ -135,6 +137,14 @@ func (f *scriptFetcher) TRC(_ context.Context, id cppki.TRCID, _ net.Addr) (cppk
 type faultDB struct {
 	trust.DB
 	failSerial int
+	failRead   bool
+}
+
+func (d faultDB) SignedTRC(ctx context.Context, id cppki.TRCID) (cppki.SignedTRC, error) {
+	if d.failRead {
+		return cppki.SignedTRC{}, errors.New("injected read failure")
+	}
+	return d.DB.SignedTRC(ctx, id)
 }
 
 func (d faultDB) InsertTRC(ctx context.Context, t cppki.SignedTRC) (bool, error) {
@@ -162,8 +172,8 @@ func newTrustDB() sqlite.DB {
 }
 
 // stored lists the TRCs in the store: ISD 1 / base 1 as [serial, content] pairs, everything else counted.
-func stored(ctx context.Context, u *universe, d trust.DB, maxSerial int) ([][]any, int, int) {
-	own, foreign := [][]any{}, 0
+func stored(ctx context.Context, u *universe, d trust.DB, maxSerial int) ([][]any, [][]int, int) {
+	own, foreign := [][]any{}, [][]int{}
 	for isd := 1; isd <= 3; isd++ { // abstract ISD numbers
 		for base := 1; base <= 3; base++ {
 			for s := base; s <= maxSerial+2; s++ {
@@ -177,7 +187,8 @@ func stored(ctx context.Context, u *universe, d trust.DB, maxSerial int) ([][]an
 				if isd == 1 && base == 1 {
 					own = append(own, []any{s, u.content(t)})
 				} else {
-					foreign++
+					// [abstract ISD, base, serial, validity starts in the future]
+					foreign = append(foreign, []int{isd, base, s, b2i(t.TRC.Validity.NotBefore.After(time.Now()))})
 				}
 			}
 		}
@@ -203,6 +214,8 @@ type c35Step struct {
 		Serial  int    `json:"serial"`
 		Content string `json:"content"`
 		Future  bool   `json:"future"`
+		ISD     int    `json:"isd"`
+		Junk    bool   `json:"junk"`
 	} `json:"files"`
 }
 
@@ -308,6 +321,9 @@ func notifyMode(scn, out string, nconc int) {
 					if o == "inserterr" {
 						fdb.failSerial = k + 1
 					}
+					if o == "dbreaderr" {
+						fdb.failRead = true
+					}
 				}
 				prov := trust.FetchingProvider{DB: fdb, Recurser: trust.LocalOnlyRecurser{}, Fetcher: f, Router: fixedRouter{}}
 				id := cppki.TRCID{ISD: pki.ISD(s.ISD), Base: scrypto.Version(s.Base), Serial: scrypto.Version(s.Serial)}
@@ -323,17 +339,30 @@ func notifyMode(scn, out string, nconc int) {
 				files := []vt.M{}
 				for i, fl := range s.Files {
 					kind := fl.Content
+					if fl.ISD == 2 {
+						kind = "o"
+					}
 					if fl.Future {
 						kind += "f"
 					}
-					raw := u.trc(kind, fl.Serial).Raw
+					var raw []byte
+					if fl.Junk { // not a TRC at all (every second one a truncated genuine TRC)
+						raw = []byte("this is not a TRC")
+						if i%2 == 0 {
+							g := u.trc("a", 1).Raw
+							raw = g[:len(g)/2]
+						}
+					} else {
+						raw = u.trc(kind, fl.Serial).Raw
+					}
 					if i%2 == 1 { // both accepted file formats
 						raw = pem.EncodeToMemory(&pem.Block{Type: "TRC", Bytes: raw})
 					}
 					if err := os.WriteFile(filepath.Join(dir, fmt.Sprintf("%02d.trc", i)), raw, 0o644); err != nil {
 						vt.Fatal("write: %v", err)
 					}
-					files = append(files, vt.M{"serial": fl.Serial, "content": fl.Content, "future": fl.Future})
+					files = append(files, vt.M{"serial": fl.Serial, "content": fl.Content, "future": fl.Future,
+						"isd": fl.ISD, "junk": fl.Junk})
 				}
 				res, err := trust.LoadTRCs(ctx, dir, sq)
 				os.RemoveAll(dir)
